@@ -110,7 +110,7 @@ def run_property(prop, tier, procs=16, only=None, tv=True):
         j.setdefault('xcheck', 1 if (k * 24) // max(1, len(jobs)) != ((k - 1) * 24) // max(1, len(jobs)) or k == 0 else 0)
     recs = []
     tv_rec = None
-    deadline = t0 + getattr(hm, 'BUDGET_S', {}).get(tier, 1500 if tier == 'quick' else 7200)
+    deadline = t0 + getattr(hm, 'BUDGET_S', {}).get(tier, 3600 if tier == 'quick' else 9000)
     if jobs:
         ctx = mp.get_context('fork')
         tvproc = None
